@@ -274,8 +274,8 @@ namespace link_layer {
          */
         struct phy_update_request_impl
         {
-            template < class LL >
-            bool handle_phy_request( std::uint8_t opcode, std::uint8_t size, const write_buffer& pdu, read_buffer& write, LL& link_layer, bool& commit )
+            template < class LL, class Result >
+            bool handle_phy_request( std::uint8_t opcode, std::uint8_t size, const write_buffer& pdu, read_buffer& write, LL& link_layer, bool& commit, Result& result )
             {
                 assert( link_layer.defered_ll_control_pdu_.buffer == nullptr );
 
@@ -311,8 +311,17 @@ namespace link_layer {
                         return true;
                     }
 
-                    link_layer.defered_ll_control_pdu_     = pdu;
                     link_layer.defered_conn_event_counter_ = ::bluetoe::details::read_16bit( pdu_body + 3 );
+
+                    if ( static_cast< std::uint16_t >( link_layer.defered_conn_event_counter_ - link_layer.connection_event_counter() ) & 0x8000 )
+                    {
+                        link_layer.disconnecting_reason_ = LL::connection_instant_passed;
+                        result = Result::disconnect;
+                    }
+                    else
+                    {
+                        link_layer.defered_ll_control_pdu_ = pdu;
+                    }
 
                     return true;
                 }
@@ -360,8 +369,8 @@ namespace link_layer {
 
         struct no_phy_update_request_impl
         {
-            template < class LL >
-            bool handle_phy_request( std::uint8_t, std::uint8_t, const write_buffer&, read_buffer, LL&, bool& )
+            template < class LL, class Result >
+            bool handle_phy_request( std::uint8_t, std::uint8_t, const write_buffer&, read_buffer, LL&, bool&, Result& )
             {
                 return false;
             }
@@ -1681,7 +1690,7 @@ namespace link_layer {
             {
                 // all encryption PDU handled in handle_encryption_pdus()
             }
-            else if ( this->handle_phy_request( opcode, size, pdu, write, *this, commit ) )
+            else if ( this->handle_phy_request( opcode, size, pdu, write, *this, commit, result ) )
             {
                 // all phy PDU handled in handle_phy_reqest
             }
